@@ -107,6 +107,10 @@ def walk(n):
         yield x
         inner = x.get("inner")
         if inner:
+            if x.get("kind") == "LambdaExpr" and any(c.get("kind") == "CXXRecordDecl" for c in inner):
+                # the dump lists a lambda's body twice (inside the closure's operator() and as the expression's last
+                # child, same node ids): walk it once, through the closure type
+                inner = [c for c in inner if c.get("kind") != "CompoundStmt"]
             stack.extend(reversed(inner))
 
 
